@@ -543,13 +543,31 @@ def run(ctx):
         by_gamma[view["mdp"]["gamma"]] = by_gamma.get(view["mdp"]["gamma"], 0) + 1
         by_m[str(view["m"])] = by_m.get(str(view["m"]), 0) + 1
         info[u]["known"] = known
-    vals = ctx.coq(PRE, terms, shard=16 if tier == "quick" else 50)
-    nchk = nmir = drift = fuel_out = act_mismatch = 0
+    # certificate terms and mirror terms are evaluated in separate coqc runs: certificate terms are all
+    # cheap (one backup each) and must all evaluate; a mirror term that cannot be evaluated (time-out /
+    # killed under load) is retried alone and, failing again, only counted: it is an aid, the proved
+    # certificate is what judges the run, and an unevaluated model term says nothing about msdm
+    def evaluate(kind, shard, timeout, retry_timeout):
+        idx = [k for k, (kd, _) in enumerate(meta) if kd == kind]
+        vs = ctx.coq(PRE, [terms[k] for k in idx], shard=shard, timeout=timeout, tag=kind)
+        bad = [j for j, v in enumerate(vs) if isinstance(v, vlib.CoqError)]
+        if bad:
+            again = ctx.coq(PRE, [terms[idx[j]] for j in bad], shard=1, timeout=retry_timeout, tag=kind + "_retry")
+            for j, v in zip(bad, again):
+                vs[j] = v
+        return dict(zip(idx, vs))
+    got = evaluate("chk", 16 if tier == "quick" else 25, 900, 600)
+    got.update(evaluate("mir", 8 if tier == "quick" else 10, 300, 150))
+    vals = [got[k] for k in range(len(meta))]
+    nchk = nmir = drift = fuel_out = act_mismatch = mir_unevaluated = 0
     distinct = set()
     rejected = set()
     for (kind, u), v in zip(meta, vals):
         case, view, res, tag = units[u]
         if isinstance(v, vlib.CoqError):
+            if kind == "mir":
+                mir_unevaluated += 1
+                continue
             ctx.violation("C17:coq-evaluation-failed", {"case": case, "training": tag, "kind": kind, "error": str(v)[:800]}, found=False)
             continue
         pre = "C17:" if tag == "first" else "C17:reused-object:"
@@ -585,6 +603,10 @@ def run(ctx):
                 drift += 1     # covered by the certificate unless that was rejected too (reported above)
             if not actok:
                 act_mismatch += 1
+    n_mir_terms = sum(1 for kd, _ in meta if kd == "mir")
+    if n_mir_terms >= 10 and nmir * 2 < n_mir_terms:
+        # the mirror machinery itself is broken when most of its terms cannot be evaluated
+        ctx.violation("C17:mirror-evaluation-mostly-failing", {"case": cases[0], "mirror_terms": n_mir_terms, "evaluated": nmir}, found=False)
     n_ok = sum(1 for r in impl if "error" not in r)
     ctx.coverage.update({
         "evaluations": nchk + nmir,
@@ -609,7 +631,7 @@ def run(ctx):
         "samples": [{"case": cases[0], "impl": impl[0]}] if cases else [],
         "cases": len(cases), "cases_run": n_ok, "trainings_judged": len(units),
         "certificate_checks": nchk, "certificate_rejections": len(rejected),
-        "mirror_runs": nmir, "mirror_drift": drift, "mirror_fuel_exhausted": fuel_out,
+        "mirror_runs": nmir, "mirror_not_evaluated_timeout": mir_unevaluated, "mirror_drift": drift, "mirror_fuel_exhausted": fuel_out,
         "mirror_action_rule_mismatch": act_mismatch,
         "input_features": dict(counters, by_gamma=by_gamma, by_threshold=by_m, by_variant=by_variant),
     })
